@@ -10,6 +10,8 @@ mod c19;
 mod c20;
 mod ev;
 mod gen_expr;
+mod tz;
+mod tztable;
 mod util;
 
 use std::io::{BufRead, BufWriter, Write};
@@ -31,6 +33,8 @@ fn exec_line(line: &str) -> String {
         c15::exec(op, args)
     } else if op.starts_with("chr.") {
         cal::exec(op, args)
+    } else if op.starts_with("tz.") {
+        tz::exec(op, args)
     } else if op.starts_with("sch.") {
         c14::exec(op, args)
     } else if op.starts_with("usv.") {
@@ -69,12 +73,14 @@ fn main() {
                 "c14" => c14::gen(tier, &mut rng, &mut emit),
                 "c15" => c15::gen(tier, &mut rng, &mut emit),
                 "cal" => cal::gen(tier, &mut rng, &mut emit),
+                "tz" => tz::gen(tier, &mut rng, &mut emit),
                 _ => {
                     eprintln!("unknown suite {suite}");
                     std::process::exit(2);
                 }
             }
         }
+        Some("tzscan") => tztable::scan_report(),
         Some("exec") => {
             for line in std::io::stdin().lock().lines() {
                 let line = line.expect("read");
